@@ -19,11 +19,12 @@ import uuid
 import logging
 import argparse
 import tempfile
+import ipaddress
 import contextlib
 import subprocess
 from typing import List, Tuple, Optional, Generator
 
-from .utils import bytes_
+from .utils import text_, bytes_
 from .version import __version__
 from .constants import COMMA
 
@@ -173,7 +174,13 @@ def get_ext_config(
     if alt_subj_names is not None and len(alt_subj_names) > 0:
         alt_names = []
         for cname in alt_subj_names:
-            alt_names.append(b'DNS:%s' % bytes_(cname))
+            # IP address literals (IPv6 ones are bracketed in URLs)
+            # go into the certificate as IP, not DNS, alternative names
+            try:
+                address = ipaddress.ip_address(text_(cname).strip('[]'))
+                alt_names.append(b'IP:%s' % bytes_(str(address)))
+            except ValueError:
+                alt_names.append(b'DNS:%s' % bytes_(cname))
         config += b'\nsubjectAltName=' + COMMA.join(alt_names)
     # Add extendedKeyUsage section
     if extended_key_usage is not None:
